@@ -207,6 +207,30 @@ CHECKS['C18'] = dict(
          'typed MIME types.',
     design='4/C18')
 
+CHECKS['C19'] = dict(
+    category='exploration',
+    technique='reference-dispatcher oracle (15 lines) over sampled / enumerated route tables x generated requests, with recording route coroutines and a bystander request after every request',
+    text='A real server with RoutingRequestHandler + RequestRouter built from a generated table (per interaction type: none '
+         '/ "a" / "a"+"b"; unknown-route handler or not; six handler signatures; verifier on/off) serves a real client. '
+         'For each request (type x route x authentication x position of the routing entry) the recording coroutine that ran, '
+         'the arguments it received and what the requester got must equal the reference dispatcher\'s prediction; with a '
+         'verifier no coroutine may run without an accepted authentication entry; a bystander request must still be '
+         'served. Quick: 700 sampled tables x 24 requests; thorough: all 15552 tables x 40 requests. Held-on-explored.',
+    note='The verifier accepts simple(user,pass) and bearer(good).',
+    design='4/C19')
+CHECKS['C20'] = dict(
+    category='exploration',
+    technique='differential monitor against the scripted ground truth of the core API: recording observers and delegate handlers on both sides, credit-window monitor on the requester tap, C06 credit ledger on the responder tap, feedback-subject vs wire-credit sequence equality, disposal oracle',
+    text='Seeded scenarios (model, element counts 0..30 per direction, request limit, error position, disposal moment, cold '
+         '/ hot / back-pressure-factory observables, link knobs) driven through the Rx v3 or ReactiveX v4 client adapter, '
+         'handler adapter or both. Observer logs must equal the ground truth in both directions; outstanding credit at '
+         'the requester never exceeds the limit and every grant equals it; responder emission obeys the credit ledger; '
+         'a factory\'s feedback subject sees exactly the wire credits; disposal yields exactly one CANCEL and cancels the '
+         'peer\'s source; fire-and-forget, metadata-push and setup reach the delegate exactly once. Held-on-explored.',
+    note='Hot sources start feeding once they have an observer (elements emitted before any subscription are lost with '
+         'or without the adapters).',
+    design='4/C20')
+
 PENDING_REASON = 'check not built yet in this working session (planned, see DESIGN.md section 4)'
 
 ALL = ['C%02d' % i for i in range(1, 21)]
